@@ -160,6 +160,20 @@ def runPre (st : St) : List Str → Except Err (St × List Rec)
 /-- `get_numbered_lines(content)` on `content.split("\n")` -/
 def numbered (lines : List Str) : Except Err (List Rec) := run St.init lines
 
+/-! ### from the file content -/
+
+/-- `content.split("\n")` -/
+def splitNL : Str → List Str
+  | [] => [[]]
+  | c :: r =>
+    if c = '\n' then [] :: splitNL r
+    else match splitNL r with
+      | [] => [[c]]
+      | l :: ls => (c :: l) :: ls
+
+/-- `get_numbered_lines(content)` -/
+def numberedText (content : Str) : Except Err (List Rec) := numbered (splitNL content)
+
 /-! ### uniform scaling of the indentation (the layout edit "indentation × k") -/
 
 /-- repeat the leading run of `' '` of a line `k` times (what "scaling the indentation by k" does to one raw line) -/
